@@ -12,9 +12,14 @@ def runner(ctx):
 
 
 def script_await(ctx, R):
-    """the await of the script future: the awaited value is a parameter of the runner, not the result of a call"""
-    c = [a for a in awaits(R) if a.producer is None and a.fut_local is not None and
-         any(at[0] == "field" and at[1].startswith("{env of") for at in R.prov.atoms(a.fut_local, interproc=False))]
+    """the await of the script future: the awaited value is a parameter of the runner itself (a captured variable of its own async body), not the
+    result of a call - and not an await that merely became visible because a helper was spliced into the view"""
+    def from_own_env(l):
+        for o in origins(R, l):
+            if o[0] == "field" and len(o[1]) == 1 and any(x[0] == "param" and x[1] == 1 for x in o[2]):
+                return True
+        return False
+    c = [a for a in awaits(R) if a.producer is None and a.fut_local is not None and R.origin(a.into_bb) == R.name and from_own_env(a.fut_local)]
     ctx.need(len(c) == 1, f"the await of the script future (a parameter) in the incremental runner; found {len(c)}")
     return c[0]
 
